@@ -239,7 +239,7 @@ func c20Builder(c *Ctx) {
 			c.Violate("the tree builder panicked", s)
 		}
 		file := c20RealFile(n, evs)
-		c.Case(fmt.Sprintf("buildfile %d %d %s", int(tm.File), n, s), file, key)
+		c.Case(fmt.Sprintf("%s %d %d %s", c20BuildFileOp(), int(tm.File), n, s), file, key)
 		// independent Go-side check: nothing is lost from the forest, ever
 		if forest != "panic" && c20CountNodes(forest) != len(evs) {
 			c.Violate(fmt.Sprintf("the builder's forest has %d nodes for %d events", c20CountNodes(forest), len(evs)), s)
@@ -252,13 +252,10 @@ func c20Builder(c *Ctx) {
 					atEnd = true
 				}
 			}
-			if !atEnd {
-				c.Violate("build() with a File node lost nodes although none starts at the end offset", fmt.Sprintf("n=%d %s", n, s))
+			if !atEnd || !c20EndOffsetDropped {
+				c.Violate("build() with a File node lost reported nodes: tree "+file, fmt.Sprintf("n=%d events %s", n, s))
 			} else {
 				c.Count("builder: FINDING-CLASS node at the end offset dropped by build()")
-				if c20Findings() {
-					c.Violate(fmt.Sprintf("build() drops reported nodes that start at the end offset of the text: tree %s", file), fmt.Sprintf("n=%d events %s", n, s))
-				}
 			}
 		}
 	}
